@@ -24,7 +24,7 @@ from pathlib import Path
 from .core import Check, MachineryError, seed
 from .tlc import printed_json, require_actions, run_tlc
 
-ALL_UN = ["addc", "mulc", "sqrt"]
+ALL_UN = ["addc", "mulc", "sqrt", "sq"]
 ALL_BIN = ["add", "sub", "mul", "max"]
 ALL_BUILDERS = ["list", "dict", "yml_list", "yml_dict", "csv_list", "csv_dict", "df_perm"]
 RUN_ACTIONS = ["Construct", "SetFree", "Update", "Arrays", "Copy", "SaveLoad"]
@@ -68,7 +68,7 @@ def expr_text(d, lab) -> str | None:
         return None
     A = "$" + lab[a]
     B = "$" + lab[b] if b else ""
-    return {"addc": f"{A} + 1", "mulc": f"2 * {A}", "sqrt": f"sqrt(square({A}))", "add": f"{A} + {B}", "sub": f"{A} - {B}",
+    return {"addc": f"{A} + 1", "mulc": f"2 * {A}", "sqrt": f"sqrt(square({A}))", "sq": f"{A}**2", "add": f"{A} + {B}", "sub": f"{A} - {B}",
             "mul": f"{A} * {B}", "max": f"maximum({A}, {B})"}[op]
 
 
@@ -217,7 +217,16 @@ class Real:
                 bad.append(f"get_label_value_and_bounds_arrays(exclude_non_vary=True) returned {list(l2)} {[float(v) for v in v2]}, "
                            f"specification says {[self.lab[k] for k in ks]} {[float(post[k - 1]) for k in ks]}")
         elif op == "copy":
-            self.p = self.p.copy()
+            # the copy continues; a sibling copy is moved to other free values, which must change neither the original nor the first copy
+            orig = self.p
+            self.p = orig.copy()
+            sib = orig.copy()
+            ks = self.plain_in_order()
+            if ks:
+                sib.set_from_label_and_value_arrays([self.lab[k] for k in ks], np.array([float(post[k - 1]) + 2.0 for k in ks]))
+            got = [orig.get(self.lab[k]).value for k in range(1, self.n + 1)]
+            if not _same(got, [float(x) for x in post]):
+                bad.append(f"updating a copy changed the values of the object it was copied from: {[float(g) for g in got]}, specification says {[float(x) for x in post]}")
         elif op == "saveload":
             f = self._file(arg)
             save_parameters(self.p, f, format_name=arg)
@@ -467,7 +476,7 @@ def replay_behaviour(out: Outcome, defs, order, hist, tmp):
 # ------------------------------------------------------------------------- entry points
 def run(tier: str, replay=None) -> int:
     chk = Check("C12", tier)
-    chk.rule = ("ParamExpr.tla enumerates every definition vector over the grammar {plain c, $a+1, 2*$a, sqrt(square($a)), $a+$b, $a-$b, $a*$b, maximum($a,$b)} "
+    chk.rule = ("ParamExpr.tla enumerates every definition vector over the grammar {plain c, $a+1, 2*$a, sqrt(square($a)), $a**2, $a+$b, $a-$b, $a*$b, maximum($a,$b)} "
                 "(rank-ordered references => all labelled DAGs with in-degree <= 2) x every declaration order; every transition of the emission "
                 "configurations (Construct by each builder, SetFree to every value vector, Update, Arrays, Copy, SaveLoad) is executed on real Parameters "
                 "and all values compared exactly; distinct = (definitions incl. plain values, declaration order); non-trivial = some expression references "
@@ -487,10 +496,10 @@ def run(tier: str, replay=None) -> int:
     refute_mutant(chk)
     if tier == "quick":
         a = dict(N=3, plain=[1, 2, 3], free=[1, 3], un=ALL_UN, bin=ALL_BIN, builders=ALL_BUILDERS, formats=["csv"])
-        b = dict(N=4, plain=[2], free=[1, 3], un=["addc"], bin=["sub", "mul"], builders=["list", "dict"], formats=[])
+        b = dict(N=4, plain=[2], free=[1, 3], un=["addc", "sq"], bin=["sub", "mul"], builders=["list", "dict"], formats=[])
         big = dict(N=4, plain=[1, 3], free=[1, 3], un=ALL_UN, bin=ALL_BIN, builders=["list"], formats=["csv"])
         explore(chk, a, "N=3 full grammar", procs, viol_total)
-        explore(chk, b, "N=4 {$a+1,$a-$b,$a*$b}", procs, viol_total)
+        explore(chk, b, "N=4 {$a+1,$a**2,$a-$b,$a*$b}", procs, viol_total)
         res = run_tlc("ParamExpr", cfg(big, "check"), workers=16, timeout=1500)
         require_actions(res, ["Define", "Declare"] + RUN_ACTIONS)
         chk.add_tlc(res, "ParamExpr[N=4 full grammar, model level only]")
